@@ -349,11 +349,22 @@ def r_pe_terms(ctx, a):
     # there equals JAX's symmetric derivative only up to O(h) (one-sided second-order terms), so the
     # tolerance is relative 2e-3 with h = 1e-4 (a wrong branch choice gives O(1) relative errors)
     kink = bool(a.get('upwind') and a.get('rest'))
-    _ad_oracles(ctx, f'{tag}.explicit_terms', eq.explicit_terms, x, v, h=1e-4 if kink else 1e-3,
+    if a.get('upwind') and not kink:
+        # a generic state can also have a nodal sigma_dot that changes sign between x - h v and x + h v: the central
+        # difference then straddles the same kink and is only O(h)-accurate there. Seed-dependent (about one case in
+        # five); detected exactly, and then the documented kink tolerance applies instead of the smooth one
+        # (false alarm seen once when the case seeds shifted: err 9.4e-4 of the scale; DESIGN 9.7).
+        m_ = dyn.mods(); tm_ = m_['jax'].tree_util.tree_map
+        sd = [np.asarray(m_['pe'].compute_diagnostic_state(tm_(lambda p_, q_: p_ + t_ * q_, x, v), c).sigma_dot_full) for t_ in (-1e-3, 0.0, 1e-3)]
+        if bool(np.any((np.sign(sd[0]) != np.sign(sd[2])) | (np.sign(sd[0]) != np.sign(sd[1])))):
+            kink = True; ctx.count('pe_terms:upwind state straddles the kink (kink tolerance)')
+        else:
+            ctx.count('pe_terms:upwind state away from the kink (smooth tolerance)')
+    _ad_oracles(ctx, f'{tag}.explicit_terms', eq.explicit_terms, x, v, h=1e-4 if (kink and a.get('rest')) else 1e-3,
                 fd_tol=2e-3 if kink else (1e-5 if a.get('upwind') else 1e-6))
     if a.get('rest') or a.get('upwind'):
         step = dyn.integrator('backward_forward_euler', eq, 0.02)
-        _ad_oracles(ctx, f'{tag} step backward_forward_euler', step, x, v, h=1e-4 if kink else 1e-3,
+        _ad_oracles(ctx, f'{tag} step backward_forward_euler', step, x, v, h=1e-4 if (kink and a.get('rest')) else 1e-3,
                     fd_tol=2e-3 if kink else 1e-5)
         return
     _ad_oracles(ctx, f'{tag}.implicit_terms', eq.implicit_terms, x, v)
